@@ -403,3 +403,89 @@ func (p *parser) postfix(e Expr) Expr {
 		}
 	}
 }
+
+// substExpr replaces free identifiers by expressions.
+func substExpr(e Expr, m map[string]Expr) Expr {
+	switch x := e.(type) {
+	case nil:
+		return nil
+	case *EIdent:
+		if r, ok := m[x.Name]; ok {
+			return r
+		}
+		return x
+	case *EUnary:
+		return &EUnary{x.Op, substExpr(x.X, m)}
+	case *EBinary:
+		return &EBinary{x.Op, substExpr(x.X, m), substExpr(x.Y, m)}
+	case *ECond:
+		return &ECond{substExpr(x.C, m), substExpr(x.A, m), substExpr(x.B, m)}
+	case *ECall:
+		var as []Expr
+		for _, a := range x.Args {
+			as = append(as, substExpr(a, m))
+		}
+		return &ECall{x.Fun, as}
+	case *ESel:
+		return &ESel{substExpr(x.X, m), x.Name}
+	case *EIndex:
+		return &EIndex{substExpr(x.X, m), substExpr(x.I, m)}
+	case *ESlice:
+		var lo, hi Expr
+		if x.Lo != nil {
+			lo = substExpr(x.Lo, m)
+		}
+		if x.Hi != nil {
+			hi = substExpr(x.Hi, m)
+		}
+		return &ESlice{substExpr(x.X, m), lo, hi}
+	case *EQuant:
+		m2 := map[string]Expr{}
+		for k, v := range m {
+			m2[k] = v
+		}
+		for _, v := range x.Vars {
+			delete(m2, v.Name)
+		}
+		return &EQuant{x.Forall, x.Vars, substExpr(x.Body, m2)}
+	}
+	return e
+}
+
+// splitConj splits an expression into conjuncts, expanding predicate calls and distributing ==> over &&.
+func splitConj(e Expr, db *SpecDB, depth int) []Expr {
+	switch x := e.(type) {
+	case *EBinary:
+		if x.Op == "&&" {
+			return append(splitConj(x.X, db, depth), splitConj(x.Y, db, depth)...)
+		}
+		if x.Op == "==>" {
+			var out []Expr
+			for _, c := range splitConj(x.Y, db, depth) {
+				out = append(out, &EBinary{"==>", x.X, c})
+			}
+			return out
+		}
+	case *ECall:
+		if id, ok := x.Fun.(*EIdent); ok && depth < 4 {
+			if p, ok := db.Preds[id.Name]; ok && len(p.Params) == len(x.Args) {
+				simple := true
+				for _, a := range x.Args {
+					switch a.(type) {
+					case *EIdent, *ESel, *EInt:
+					default:
+						simple = false
+					}
+				}
+				if simple {
+					m := map[string]Expr{}
+					for i, pp := range p.Params {
+						m[pp.Name] = x.Args[i]
+					}
+					return splitConj(substExpr(p.Body, m), db, depth+1)
+				}
+			}
+		}
+	}
+	return []Expr{e}
+}
